@@ -182,12 +182,13 @@ struct World {
     resp_count: BTreeMap<(String, String), u64>,
     give_count: BTreeMap<(String, String), u64>,
     cache: std::cell::RefCell<SnapCache>,
+    last_given: Option<(String, String)>,   // (child, key) of the latest response the manager handed over
     processed: BTreeSet<String>,       // signed request blobs some signer has processed successfully
 }
 
 struct Out {
     w: CaseWriter, jsonl: std::fs::File, op_hist: BTreeMap<String, u64>, kind_hist: BTreeMap<String, u64>, result_hist: BTreeMap<String, u64>,
-    alter_hist: BTreeMap<String, u64>, distinct: BTreeSet<String>, samples: Vec<Value>, impl_failures: Vec<Value>, notes: Vec<Value>, unknown_blobs: u64,
+    alter_hist: BTreeMap<String, u64>, distinct: BTreeSet<String>, samples: Vec<Value>, impl_failures: Vec<Value>, notes: Vec<Value>, unknown_blobs: u64, harness_errors: Vec<String>,
 }
 
 fn proxy_json(sys: &Sys) -> Value { serde_json::to_value(&*sys.krill.ca_manager().get_trust_anchor_proxy().expect("proxy")).unwrap() }
@@ -346,7 +347,7 @@ fn emit(w: &mut World, before: &Snap, after: &Snap, op: &Value, hist: u64, ov: O
                 let key = serde_json::from_value::<ProvisioningRequest>(a[1].clone()).map(|r| r.key_identifier().to_string()).unwrap_or_default();
                 ("child_request".into(), format!("(PAddReq {} {} {})", w.it.get("child", a[0].as_str().unwrap_or("?")), w.it.get("key", &key), creq_term(&mut w.it, &a[1])))
             } else if let Some(g) = d.get("GiveChildResponse") {
-                if ok && p == 0 { *w.give_count.entry((g[0].as_str().unwrap_or("?").to_string(), g[1].as_str().unwrap_or("?").to_string())).or_default() += 1; }
+                if ok && p == 0 { let ck = (g[0].as_str().unwrap_or("?").to_string(), g[1].as_str().unwrap_or("?").to_string()); *w.give_count.entry(ck.clone()).or_default() += 1; w.last_given = Some(ck); }
                 ("give".into(), format!("(PGive {} {})", w.it.get("child", g[0].as_str().unwrap_or("?")), w.it.get("key", g[1].as_str().unwrap_or("?"))))
             } else if let Some(s) = d.get("AddSigner") { ("add_signer".into(), format!("(PAddSigner {})", sinfo_term(&mut w.it, s)))
             } else if let Some(s) = d.get("UpdateSigner") { ("update_signer".into(), format!("(PUpdateSigner {})", sinfo_term(&mut w.it, s)))
@@ -385,7 +386,9 @@ fn key_state(sys: &Sys, ca: &str) -> (String, Vec<String>) {
     let v = serde_json::to_value(&*c).unwrap();
     let Some(rc) = v["resources"].as_object().and_then(|m| m.values().find(|rc| rc["parent_handle"] == "ta")) else { return ("none".into(), vec![]) };
     let (tag, val) = rc["key_state"].as_object().and_then(|o| o.iter().next()).map(|(k, v)| (k.clone(), v.clone())).unwrap_or(("?".into(), Value::Null));
-    let keys: Vec<String> = match &val { Value::Array(a) => a.iter().map(|k| k["key_id"].as_str().unwrap_or("?").to_string()).collect(), k => vec![k["key_id"].as_str().unwrap_or("?").to_string()] };
+    // PendingKey / CertifiedKey carry "key_id"; the old key of a roll is an OldKey { key: CertifiedKey, revoke_req }
+    let kid = |k: &Value| -> String { k["key_id"].as_str().or_else(|| k["key"]["key_id"].as_str()).unwrap_or_else(|| panic!("harness: key state entry without key id: {k}")).to_string() };
+    let keys: Vec<String> = match &val { Value::Array(a) => a.iter().map(kid).collect(), k => vec![kid(k)] };
     (tag, keys)
 }
 
@@ -440,6 +443,11 @@ fn bootstrap_with_key(sys: &Sys, pem: &str) {
 
 static PROF: [std::sync::atomic::AtomicU64; 3] = [std::sync::atomic::AtomicU64::new(0), std::sync::atomic::AtomicU64::new(0), std::sync::atomic::AtomicU64::new(0)];
 
+thread_local! { static IN_KRILL: std::cell::Cell<bool> = const { std::cell::Cell::new(false) }; }
+/// Marks the dynamic extent of a call into the real code: a panic inside is a panic of krill, anywhere else it is
+/// an error of this harness (reported as such, never as a finding).
+fn krill_call<T>(f: impl FnOnce() -> T) -> T { IN_KRILL.with(|c| c.set(true)); let r = f(); IN_KRILL.with(|c| c.set(false)); r }
+
 struct Flags { wedge: bool, late: bool, n_ops: u64 }
 
 fn run_history(args: &Args, hist: u64, seed: u64, flags: &Flags, out: &Mutex<Out>) {
@@ -472,7 +480,7 @@ fn run_history(args: &Args, hist: u64, seed: u64, flags: &Flags, out: &Mutex<Out
     ];
     for s in signers.iter_mut() { s.id = id_of(&mut it, &signer_json(s)["id"]); }
     let mut w = World { parties: vec![a, b], signers, proxy_store_a, assoc: [0, 1], proxy_ids, it, reg: Registry::default(), req_pool: vec![], resp_pool: vec![],
-        children: vec![], reinit_done: false, resp_count: BTreeMap::new(), give_count: BTreeMap::new(), cache: Default::default(), processed: BTreeSet::new() };
+        children: vec![], reinit_done: false, resp_count: BTreeMap::new(), give_count: BTreeMap::new(), cache: Default::default(), last_given: None, processed: BTreeSet::new() };
     // exchanges done during bootstrap: learn their messages
     for s in 0..w.signers.len() {
         let sj = signer_json(&w.signers[s]);
@@ -491,7 +499,7 @@ fn run_history(args: &Args, hist: u64, seed: u64, flags: &Flags, out: &Mutex<Out
             let t0 = std::time::Instant::now();
             let before = snap(&w);
             let t1 = std::time::Instant::now();
-            let r: Result<(), String> = $body;
+            let r: Result<(), String> = krill_call(|| $body);
             let t2 = std::time::Instant::now();
             let after = snap(&w);
             let t3 = std::time::Instant::now();
@@ -579,7 +587,9 @@ fn run_history(args: &Args, hist: u64, seed: u64, flags: &Flags, out: &Mutex<Out
             }
             continue;
         }
-        let kind = rng.weighted(&[16, 8, 6, 4, 12, 14, 6, 7, 5, 4, 3, 4, 13]);
+        // the second of two handlers for a response the manager has just handed over
+        if let Some((c, k)) = w.last_given.take() { if rng.chance(75) { regive(&mut w, &c, &k, "just-handed-over", hist, out); } }
+        let kind = rng.weighted(&[16, 8, 6, 4, 12, 14, 6, 7, 5, 4, 3, 4, 13, 5]);
         match kind {
             0 => { let c = rng.pick(&w.children).clone();
                    let _ = step!(json!({"op": "child_sync", "child": c, "while_open": w.open_nonce(0).is_some()}), None, None, w.parties[0].sync_parent(&c, "ta").map(|_| ()).map_err(|e| e.to_string())); }
@@ -662,6 +672,17 @@ fn run_history(args: &Args, hist: u64, seed: u64, flags: &Flags, out: &Mutex<Out
                     let _ = step!(json!({"op": "respond", "party": 1, "response": format!("cross-wired(made by {})", w.signers[s].label)}), None, None, respond_to(&w, 1, &v)); }
                 if let Some((v, _)) = w.req_pool.iter().rev().find(|(_, p)| *p == 1).cloned() {
                     let _ = step!(json!({"op": "sign", "signer": "SA", "request": "cross-wired(made by proxy B)"}), None, None, sign_at(&w, 0, &v, None)); }
+            }
+            13 => { // hand-over asked for a key that has no pending response (used, revoked, or never used by this child)
+                let c = rng.pick(&w.children).clone();
+                let pj = cur_proxy(&w, 0);
+                let mut cands: Vec<(String, &str)> = Vec::new();
+                let ch = &pj["child_details"][c.as_str()];
+                for (k, st) in sorted_map(&ch["used_keys"]) { if ch["open_responses"].get(k.as_str()).is_none() { cands.push((k.clone(), if st.as_str() == Some("revoked") { "revoked-key-without-pending-response" } else { "used-key-without-pending-response" })); } }
+                for other in w.children.iter().filter(|o| **o != c) { for (k, _) in sorted_map(&pj["child_details"][other.as_str()]["used_keys"]) { if ch["used_keys"].get(k.as_str()).is_none() { cands.push((k.clone(), "key-never-used-by-child")); } } }
+                if cands.is_empty() { continue }
+                let (k, why) = rng.pick(&cands).clone();
+                regive(&mut w, &c, &k, why, hist, out);
             }
             12 => { // gauntlet on A: with a request open, everything that must be refused is tried before the honest answer
                 if w.open_nonce(0).is_none() { let _ = step!(json!({"op": "make_request", "party": 0}), None, None, make_request(&mut w, 0)); }
@@ -781,6 +802,7 @@ fn run_history(args: &Args, hist: u64, seed: u64, flags: &Flags, out: &Mutex<Out
                 }.map_err(|e| e.to_string()));
                 let pending = sorted_map(&cur_proxy(&w, 0)["child_details"]).iter().any(|(_, ch)| ch["open_requests"].as_object().map(|m| !m.is_empty()).unwrap_or(false));
                 if pending || w.open_nonce(0).is_some() { honest_exchange!(0); }
+                if let Some((gc, gk)) = w.last_given.take() { regive(&mut w, &gc, &gk, "just-handed-over", hist, out); }
             }};
         }
         let healthy = w.open_nonce(0).is_none();
@@ -838,13 +860,44 @@ fn run_history(args: &Args, hist: u64, seed: u64, flags: &Flags, out: &Mutex<Out
     let _ = std::fs::remove_dir_all(&dir);
 }
 
+/// GiveChildResponse sent once more for (child, key), as the second of two manager handlers does that both saw the
+/// pending response before either removed it (ta_slow_rfc6492_request reads the proxy, then sends the command), or
+/// for a key without any pending response. The case is built from the result of the call itself: a command that
+/// succeeds without events is not stored.
+fn regive(w: &mut World, c: &str, key: &str, why: &str, hist: u64, out: &Mutex<Out>) {
+    use std::io::Write;
+    let before = snap(w);
+    let ki = KeyIdentifier::from_str(key).unwrap_or_else(|_| panic!("harness: not a key identifier: {key:?}"));
+    let r = { let sys = &w.parties[0];
+        let cmd = TrustAnchorProxyCommand::give_child_response(&ta_handle(), child_handle(c), ki, &sys.actor);
+        krill_call(|| w.proxy_store_a.command_with_context(cmd, TrustAnchorProxyContext::from(&sys.krill)).map(|_| ()).map_err(|e| e.to_string())) };
+    let after = snap(w);
+    let (pre, post) = (before.proxies[0].clone(), after.proxies[0].clone());
+    let pending_before = pre["child_details"][c]["open_responses"].get(key).is_some();
+    let (err, res) = match &r { Ok(()) => ("None".to_string(), "ok".to_string()), Err(e) => (format!("(Some {})", perr_of(e)), perr_of(e).to_string()) };
+    if r.is_ok() { *w.give_count.entry((c.to_string(), key.to_string())).or_default() += 1; }
+    let same = strip_version(&pre) == strip_version(&post);
+    let (ci, kk) = (w.it.get("child", c), w.it.get("key", key));
+    let term = format!("CProxy {} [mkPStep (PGive {ci} {kk}) {err}] {} {}", proxy_term(&mut w.it, &pre), proxy_term(&mut w.it, &post), same);
+    let mut o = out.lock().unwrap();
+    *o.op_hist.entry("give_again".into()).or_default() += 1;
+    *o.kind_hist.entry("proxy:give_again".into()).or_default() += 1;
+    *o.result_hist.entry(format!("proxy:give_again:{why}:{res}")).or_default() += 1;
+    let rec = json!({"index": o.w.total, "history": hist, "aggregate": "proxy A", "op": {"op": "give_again", "child": c, "key": key, "key_is": why, "response_pending_before": pending_before, "result": match &r { Ok(()) => "ok".to_string(), Err(e) => e.chars().take(120).collect::<String>() }},
+        "commands": ["give"], "results": [res], "json_unchanged": same,
+        "class": {"kind": "proxy", "commands": "give", "results": res, "give_again": true, "response_pending_before": pending_before}});
+    writeln!(o.jsonl, "{rec}").unwrap();
+    o.distinct.insert(format!("G|{why}|{res}|{pending_before}"));
+    o.w.push(term);
+}
+
 fn revoke_call(w: &mut World, c: &str, key: &str, why: &str, hist: u64, out: &Mutex<Out>) -> &'static str {
     use std::io::Write;
     let before = snap(w);
-    let ki = KeyIdentifier::from_str(key).expect("key id");
+    let ki = KeyIdentifier::from_str(key).unwrap_or_else(|_| panic!("harness: not a key identifier: {key:?}"));
     let mut m = HashMap::new();
     m.insert(ta_resource_class_name(), vec![RevocationRequest::new(ta_resource_class_name(), ki)]);
-    let r = { let sys = &w.parties[0]; sys.krill.ca_manager().send_revoke_requests(&ca_handle(c), &parent_handle("ta"), m, &sys.slow) };
+    let r = { let sys = &w.parties[0]; krill_call(|| sys.krill.ca_manager().send_revoke_requests(&ca_handle(c), &parent_handle("ta"), m, &sys.slow)) };
     let after = snap(w);
     let stored = after.proxies[0]["version"] != before.proxies[0]["version"];
     let outcome = match &r { Ok(map) if map.values().any(|v| !v.is_empty()) => "(CDelivered RRevoked)", Ok(_) if stored => "CScheduled", Ok(_) => "CAlready", Err(_) => "CFailed" };
@@ -868,7 +921,7 @@ fn main() {
     let n_hist = args.get_u64("histories", if args.thorough() { 96 } else { 8 });
     let flags = Flags { wedge: args.get_u64("wedge", 1) == 1, late: args.get_u64("late", 0) == 1, n_ops: args.get_u64("ops", if args.thorough() { 90 } else { 40 }) };
     let out = Mutex::new(Out { w: CaseWriter::new(&args.out, HEADER, "list case", FOOTER, 80), jsonl: std::fs::File::create(args.out.join("cases.jsonl")).unwrap(),
-        op_hist: BTreeMap::new(), kind_hist: BTreeMap::new(), result_hist: BTreeMap::new(), alter_hist: BTreeMap::new(), distinct: BTreeSet::new(), samples: vec![], impl_failures: vec![], notes: vec![], unknown_blobs: 0 });
+        op_hist: BTreeMap::new(), kind_hist: BTreeMap::new(), result_hist: BTreeMap::new(), alter_hist: BTreeMap::new(), distinct: BTreeSet::new(), samples: vec![], impl_failures: vec![], notes: vec![], unknown_blobs: 0, harness_errors: vec![] });
     std::panic::set_hook(Box::new(|_| {}));
     let mut rng = Rng::new(args.seed);
     let seeds: Vec<u64> = (0..n_hist).map(|_| rng.next()).collect();
@@ -883,7 +936,11 @@ fn main() {
                     let r = std::panic::catch_unwind(std::panic::AssertUnwindSafe(|| run_history(args, h, sd, flags, out)));
                     if let Err(p) = r {
                         let msg = p.downcast_ref::<String>().cloned().or_else(|| p.downcast_ref::<&str>().map(|s| s.to_string())).unwrap_or("panic".into());
-                        out.lock().unwrap().impl_failures.push(json!({"index": null, "history": h, "class": {"panic": true}, "what": format!("panic while running history {h}: {msg}")}));
+                        if IN_KRILL.with(|c| c.replace(false)) {
+                            out.lock().unwrap().impl_failures.push(json!({"index": null, "history": h, "class": {"panic": true}, "what": format!("panic of the real code in history {h}: {msg}")}));
+                        } else {
+                            out.lock().unwrap().harness_errors.push(format!("history {h}: {msg}"));
+                        }
                     }
                 }
             });
@@ -891,14 +948,20 @@ fn main() {
     });
     let mut o = out.into_inner().unwrap();
     o.w.flush();
-    if o.unknown_blobs > 0 { o.impl_failures.push(json!({"index": null, "class": {"harness": true}, "what": format!("{} signed blobs of unknown origin (harness bookkeeping)", o.unknown_blobs)})); }
+    if o.unknown_blobs > 0 { let n = o.unknown_blobs; o.harness_errors.push(format!("{n} signed blobs of unknown origin (bookkeeping of who signed what)")); }
     write_json(&args.out.join("stats.json"), &json!({
         "scenario": "c15", "seed": args.seed, "tier": args.tier, "histories": n_hist, "ops_per_history": flags.n_ops, "wedge": flags.wedge, "late": flags.late,
         "evaluations": o.w.total, "distinct_nontrivial": o.distinct.len(),
-        "rule": "random histories on two embedded trust anchors A and B plus a harness-owned re-initialised signer A2 (same TA key) and 2-4 CAs directly under A's ta: child syncs, key rolls (issuance and revocation requests), embedded exchanges, make/get request, requests handed to any of the three signers (current, replayed, stale, cross-wired, clear text altered under the original signature, forced manifest number), responses handed to the proxies (fresh, replayed, stale, right nonce but other signer, cross-wired, altered), signer re-initialisation, revocation calls through the manager; one case per (operation, aggregate whose stored history grew): state before, stored commands with outcome, state after; non-trivial = at least one stored command; distinct = distinct (aggregate, command kinds, outcomes, message provenance/alteration, open-or-not)",
+        "rule": "random histories on two embedded trust anchors A and B plus a harness-owned re-initialised signer A2 (same TA key) and 2-4 CAs directly under A's ta: child syncs, key rolls (issuance and revocation requests), embedded exchanges, make/get request, requests handed to any of the three signers (current, replayed, stale, cross-wired, clear text altered under the original signature, forced manifest number), responses handed to the proxies (fresh, replayed, stale, right nonce but other signer, cross-wired, altered), signer re-initialisation, revocation calls through the manager; hand-over commands sent a second time or for keys without a pending response; one case per (operation, aggregate whose stored history grew): state before, stored commands with outcome, state after; non-trivial = at least one stored command; distinct = distinct (aggregate, command kinds, outcomes, message provenance/alteration, open-or-not)",
         "op_distribution": o.op_hist, "command_distribution": o.kind_hist, "result_distribution": o.result_hist, "message_distribution": o.alter_hist,
-        "samples": o.samples, "impl_failures": o.impl_failures, "notes": o.notes,
+        "samples": o.samples, "impl_failures": o.impl_failures, "notes": o.notes, "harness_errors": o.harness_errors,
     }));
+    if !o.harness_errors.is_empty() {
+        // an error of the harness itself is never a finding about krill: fail the run as broken machinery
+        println!("HARNESS ERROR (c15, not a finding about the code under test): {} error(s)", o.harness_errors.len());
+        for e in &o.harness_errors { println!("  harness error: {e}"); }
+        std::process::exit(3);
+    }
     if std::env::var("KV_PROF").is_ok() { eprintln!("prof: snap {} ms, real code {} ms, emit {} ms", PROF[0].load(std::sync::atomic::Ordering::Relaxed) / 1000, PROF[1].load(std::sync::atomic::Ordering::Relaxed) / 1000, PROF[2].load(std::sync::atomic::Ordering::Relaxed) / 1000); }
     println!("c15: {} cases from {} histories ({} impl failures)", o.w.total, n_hist, o.impl_failures.len());
 }
